@@ -263,12 +263,21 @@ pub fn run_sweep<E: Elem>(seed: u64, cfg: &ArrayCfg, mut j: Journal<'_>, only_va
     }
     // 3. one execution per fault point
     let suffix_len = rng.range(2, 8);
+    // (the interpreter is ~1000x slower: under Miri a sweep keeps an evenly spaced sample of its points)
+    let variants: Vec<Step> = if cfg!(miri) && variants.len() > 8 {
+        let k = (variants.len() + 7) / 8;
+        variants.into_iter().step_by(k).collect()
+    } else {
+        variants
+    };
     for (vi, fs) in variants.iter().enumerate() {
         if let Some(only) = only_variant {
             if only != vi {
                 continue;
             }
         }
+        // a sign of life per variant: a sweep can take minutes under the Miri interpreter
+        crate::heartbeat();
         journal_line(&mut j, &format!("{{\"variant\":{}}}", vi));
         begin_run(cfg.flavour, cfg.alloc_mode, &mut j);
         let mut eng: Engine<E> = Engine::new();
